@@ -178,3 +178,18 @@ class Layout(object):
             if i + 1 < self.cap:
                 cs.append(z.Not(z.And(self._in(name, i), self._in(name, i + 1), z.eq_c(self.line.chars[i], ord(c1)), z.eq_c(self.line.chars[i + 1], ord(c2)))))
         return z.And(cs)
+
+
+def cond_str(cond, a, b):
+    """string a if cond else b, without forking"""
+    from symlas.values import mkstr
+
+    cc = z._cb(cond)
+    if cc is not None:
+        return a if cc else b
+    a = SymStr.lift(a)
+    b = SymStr.lift(b)
+    cap = max(a.cap, b.cap)
+    ca = a.chars + [0] * (cap - a.cap)
+    cb = b.chars + [0] * (cap - b.cap)
+    return mkstr(SymStr([z.ite_c(cond, x, y) for x, y in zip(ca, cb)], z.ite_i(cond, a.n, b.n), max(a.maxlen, b.maxlen)))
